@@ -13,6 +13,18 @@ use incan_core::lang::derives::{self, DeriveId};
 use incan_core::lang::http;
 use incan_core::lang::stdlib;
 
+/// The methods a declaration carries: those of models, classes and newtypes, and the default methods of traits.
+/// Every scanner below has to look into all of them: each body ends up in the generated crate.
+fn methods_of(decl: &Declaration) -> &[Spanned<ast::MethodDecl>] {
+    match decl {
+        Declaration::Model(m) => &m.methods,
+        Declaration::Class(c) => &c.methods,
+        Declaration::Newtype(n) => &n.methods,
+        Declaration::Trait(t) => &t.methods,
+        _ => &[],
+    }
+}
+
 /// Detect whether serde derives are used anywhere in the program
 pub fn detect_serde_usage(program: &Program) -> bool {
     for decl in &program.declarations {
@@ -55,8 +67,8 @@ fn program_uses_json_stringify(program: &Program) -> bool {
                     return true;
                 }
             }
-            Declaration::Model(model) => {
-                for method in &model.methods {
+            other => {
+                for method in methods_of(other) {
                     if let Some(body) = &method.node.body {
                         if body_uses_json_stringify(body) {
                             return true;
@@ -64,16 +76,6 @@ fn program_uses_json_stringify(program: &Program) -> bool {
                     }
                 }
             }
-            Declaration::Class(class) => {
-                for method in &class.methods {
-                    if let Some(body) = &method.node.body {
-                        if body_uses_json_stringify(body) {
-                            return true;
-                        }
-                    }
-                }
-            }
-            _ => {}
         }
     }
     false
@@ -134,7 +136,8 @@ fn expr_uses_json_stringify(expr: &Expr) -> bool {
             .iter()
             .any(|(k, v)| expr_uses_json_stringify(&k.node) || expr_uses_json_stringify(&v.node)),
         Expr::If(if_expr) => {
-            body_uses_json_stringify(&if_expr.then_body)
+            expr_uses_json_stringify(&if_expr.condition.node)
+                || body_uses_json_stringify(&if_expr.then_body)
                 || if_expr.else_body.as_ref().is_some_and(|b| body_uses_json_stringify(b))
         }
         Expr::Match(scrutinee, arms) => {
@@ -200,8 +203,8 @@ pub fn detect_async_usage(program: &Program) -> bool {
                     return true;
                 }
             }
-            Declaration::Model(model) => {
-                for method in &model.methods {
+            other => {
+                for method in methods_of(other) {
                     if method.node.is_async {
                         return true;
                     }
@@ -212,19 +215,6 @@ pub fn detect_async_usage(program: &Program) -> bool {
                     }
                 }
             }
-            Declaration::Class(class) => {
-                for method in &class.methods {
-                    if method.node.is_async {
-                        return true;
-                    }
-                    if let Some(body) = &method.node.body {
-                        if body_uses_async(body) {
-                            return true;
-                        }
-                    }
-                }
-            }
-            _ => {}
         }
     }
     false
@@ -392,8 +382,8 @@ pub fn detect_list_helpers_usage(program: &Program) -> bool {
                     return true;
                 }
             }
-            Declaration::Model(model) => {
-                for method in &model.methods {
+            other => {
+                for method in methods_of(other) {
                     if let Some(body) = &method.node.body {
                         if body_uses_list_helpers(body) {
                             return true;
@@ -401,16 +391,6 @@ pub fn detect_list_helpers_usage(program: &Program) -> bool {
                     }
                 }
             }
-            Declaration::Class(class) => {
-                for method in &class.methods {
-                    if let Some(body) = &method.node.body {
-                        if body_uses_list_helpers(body) {
-                            return true;
-                        }
-                    }
-                }
-            }
-            _ => {}
         }
     }
     false
@@ -466,7 +446,8 @@ fn expr_uses_list_helpers(expr: &Expr) -> bool {
             items.iter().any(|item| expr_uses_list_helpers(&item.node))
         }
         Expr::If(if_expr) => {
-            body_uses_list_helpers(&if_expr.then_body)
+            expr_uses_list_helpers(&if_expr.condition.node)
+                || body_uses_list_helpers(&if_expr.then_body)
                 || if_expr.else_body.as_ref().is_some_and(|b| body_uses_list_helpers(b))
         }
         _ => false,
